@@ -21,7 +21,10 @@ mkdir -p "$(dirname "$WT/$DEMO")"
 [ -e "$WT/$DEMO" ] && { echo "RESULT $(basename $(dirname $M))/$(basename $M) demo path $DEMO already exists in the tree"; exit 2; }
 cp "$M/demo.rs" "$WT/$DEMO"
 run_demo; DC=$?
+touch "$WT/precis-core/build.rs" "$WT/precis-profiles/build.rs"   # the build scripts do not track resources/
+run_demo >/dev/null 2>&1; DC=$?
 git -C "$WT" apply "$M/patch.diff" || { echo "RESULT $(basename $(dirname $M))/$(basename $M) patch does not apply"; exit 2; }
+touch "$WT/precis-core/build.rs" "$WT/precis-profiles/build.rs"
 run_demo; DP=$?
 rm -f "$WT/$DEMO"
 (cd "$WT" && timeout 1800 cargo test --workspace --no-fail-fast --offline >"$OUT/suite.log" 2>&1); SU=$?
@@ -32,4 +35,5 @@ for id in $CHECKS; do
   if [ $rc -ne 0 ] && [ $rc -ne 1 ]; then DET="$DET $id(rc=$rc)"; fi
 done
 git -C "$WT" checkout -q -- . && git -C "$WT" clean -fdq -e target
+touch "$WT/precis-core/build.rs" "$WT/precis-profiles/build.rs"
 echo "RESULT $(basename $(dirname $M))/$(basename $M) demo_clean=$DC demo_patched=$DP suite=$SU detected_by=${DET:- none}"
